@@ -44,11 +44,13 @@ MODEL = dict(
              invariants=["NoViolation"], expect="violation"),
     ],
     quick=dict(sample=3000, drive_runs=240, drive_len=40),
-    thorough=dict(sample=60000, drive_runs=6000, drive_len=60),
+    thorough=dict(sample=40000, drive_runs=4000, drive_len=60),
+    # (no ("admin_fn", "fail") / ("set_role_admin", "fail"): a defect that lets everybody through these
+    # single-check gates must surface as a VIOLATION of C06_gate, not as a vacuity tool error)
     need=[("grant", "ok"), ("grant", "fail"), ("revoke", "ok"), ("revoke", "fail"),
-          ("renounce_role", "ok"), ("renounce_role", "fail"), ("set_role_admin", "ok"), ("set_role_admin", "fail"),
+          ("renounce_role", "ok"), ("renounce_role", "fail"), ("set_role_admin", "ok"),
           ("transfer", "ok"), ("accept", "ok"), ("renounce_admin", "ok"), ("renounce_admin", "fail"),
-          ("admin_fn", "ok"), ("admin_fn", "fail"), ("mint", "ok"), ("mint", "fail"),
+          ("admin_fn", "ok"), ("mint", "ok"), ("mint", "fail"),
           ("multi_role_action", "ok"), ("multi_role_action", "fail"),
           ("multi_role_auth_action", "ok"), ("multi_role_auth_action", "fail"), ("burn", "ok"), ("burn", "fail")],
 )
